@@ -133,6 +133,9 @@ def coq_make(targets, timeout=1500, jobs=16):
     ensure_makefile()
     cmd = ["make", "-j%d" % jobs, "-f", "Makefile"] + list(targets)
     rc, o, e = sh(cmd, cwd=COQ, timeout=timeout)
+    if rc == 124:
+        # do not leave a runaway coqc behind (it would keep the CPU and, for callers holding it, the build lock)
+        sh("pkill -f 'coqc.*-Q theories Dolt' || true", timeout=20)
     return rc == 0, (o + e)
 
 
